@@ -75,7 +75,9 @@ impl Scaling {
             for j in 0..4 {
                 let k = e(i, j);
                 if k != 0 && !m[i][j].is_zero() {
-                    o[i][j] = m[i][j] * p2::<S>(k);
+                    // in two steps: the factor 2^k alone may lie outside the normal range although entry * 2^k does not
+                    // (the intermediate value lies between the entry and the result)
+                    o[i][j] = m[i][j] * p2::<S>(k / 2) * p2::<S>(k - k / 2);
                 }
             }
         }
@@ -1302,6 +1304,10 @@ fn fast_inverse_wide<S: Dom>(t: &mut Tape, cx: &mut Cx, rigid: bool, rounded: bo
             cx.label("a rotation entry rounds to exactly +-1 while its row has other non-zero entries");
         }
     }
+    if vkit::rat::poisoned().is_some() {
+        // the rational oracle left the i128 range: its values are meaningless, stop before comparing anything
+        discard!("poison:rat:overflow (oracle)");
+    }
     let b_abs: M4<f64> = map4(&bs, |x: S| x.f().abs());
     let w_abs: M4<f64> = map4(&w0, |x: S| x.f().abs());
     let det_abs = (mf[0] * mf[1] * mf[2]).abs();
@@ -1451,7 +1457,8 @@ fn fast_inverse_wide<S: Dom>(t: &mut Tape, cx: &mut Cx, rigid: bool, rounded: bo
         c2.invert();
         check_eq!(cx, c2.to_arr(), gc.to_arr(), "col-major invert() == inverted() on a {} matrix", kind);
         // determinant = product of the scales (times det R = 1), scaled back
-        let want = rat_to::<S>(mant[0] * mant[1] * mant[2]);
+        // (the exact product of three mantissas 1 +- 2^-40 would leave the i128 range of the oracle: floats take it in f64)
+        let want = if S::EXACT { rat_to::<S>(mant[0] * mant[1] * mant[2]) } else { to_s(mf[0] * mf[1] * mf[2]) };
         let dtol = 128.0 * S::eps() * perm_abs(&b_abs);
         let unscale = p2::<S>(-(e[0] + e[1] + e[2]));
         near::<S>(cx, r.determinant() * unscale, want, dtol, "row-major determinant of a T*R*S matrix = product of the scales", kind)?;
